@@ -53,10 +53,72 @@ def _draws(se):
     return [n for n in se.notes if n[0] == "draw"]
 
 
+class _RefEnv(symx.Env):
+    """a call made through a value that is a reference to a package function -- a local picked from a dispatch table
+    (`TABLE.get(system, default)(ra, dec)`, `TABLE[key](...)`) or a plain alias (`conv = eq2xyz`) -- is the call of that function:
+    the reference is followed (data flow), so the result is the same term as for the direct call in an if/else chain.  Only
+    references that name a module-level function of the module being evaluated are followed, and only when no other package
+    module has a function of that name (a table imported from another module would name that module's function); anything else is
+    left to the engine (an application of an unknown callee: no verdict for the rules reading it)."""
+
+    def _function_ref(self, v):
+        if not isinstance(v, symx.Opaque) or not isinstance(v.what, str) or not v.what.isidentifier():
+            return None
+        name = v.what
+        if name in self.vars or name in self.pins or name in self.flags or name not in self.mod.funcs:
+            return None
+        if self.se.module_const(self.mod, name) is not None:
+            return None
+        others = [f for f in self.se.repo.funcs.values() if f.cls is None and f.name == name and f.module is not self.mod]
+        return None if others else name
+
+    def call(self, c, stmt_level=False):
+        f = c.func
+        v = None
+        if isinstance(f, ast.Name) and f.id in self.vars and f.id not in self.pins:
+            v = self.vars[f.id]
+        elif isinstance(f, (ast.Subscript, ast.Call)):
+            try:
+                v = self.ev(f)
+            except (symx.Unsupported, KeyError, TypeError):
+                v = None
+        name = self._function_ref(v)
+        if name is not None:
+            direct = ast.copy_location(ast.Call(func=ast.copy_location(ast.Name(id=name, ctx=ast.Load()), f), args=c.args, keywords=c.keywords), c)
+            return super().call(direct, stmt_level)
+        return super().call(c, stmt_level)
+
+
+class _RefEval(symx.SymEval):
+    """SymEval whose environments follow function references (see _RefEnv); nested calls keep the environment class"""
+
+    def run(self, fi, args, flags=None, depth=0, pins=None):
+        flags = dict(flags or {})
+        env = _RefEnv(self, fi, fi.module, dict(args), flags, depth=depth)
+        env.pins = dict(pins or {})
+        for p in fi.params:
+            pn = p.lstrip("*")
+            if pn not in env.vars:
+                if pn in fi.defaults:
+                    env.vars[pn] = env.ev(fi.defaults[pn])
+                elif p.startswith("**"):
+                    env.vars[pn] = {}
+                elif p.startswith("*"):
+                    env.vars[pn] = ()
+        params = [p.lstrip("*") for p in fi.params]
+        for k, v in flags.items():
+            if k in params:
+                env.vars[k] = v
+        rets = env.exec_body(fi.node.body, sp.true)
+        env.finish_returns(rets)
+        self.last_env = env
+        return env.result
+
+
 def randsphere(chk, repo):
     fi = repo.func(CO + "randsphere")
     chk.analysed_unit(fi.qualname)
-    se = symx.SymEval(repo, opaque={CO + "atbound", CO + "atbound2", CO + "_check_range"})
+    se = _RefEval(repo, opaque={CO + "atbound", CO + "atbound2", CO + "_check_range"})
     r0, r1, d0, d1, num = symx.symbols("r0", "r1", "d0", "d1", "num")
     rng = symx.Opaque("rng")
     res = se.run(fi, {"num": num, "ra_range": [r0, r1], "dec_range": [d0, d1], "rng": rng}, {"system": "eq"},
@@ -116,7 +178,7 @@ def randsphere(chk, repo):
     else:
         chk.ob("R19.box", "randsphere::returns-pair", False, fi.where(), "got %r" % (res,))
     # xyz system goes through eq2xyz of the same ra/dec
-    se_x = symx.SymEval(repo, opaque={CO + "atbound", CO + "atbound2", CO + "_check_range", CO + "eq2xyz"})
+    se_x = _RefEval(repo, opaque={CO + "atbound", CO + "atbound2", CO + "_check_range", CO + "eq2xyz"})
     ok = None
     try:
         resx = se_x.run(fi, {"num": num, "ra_range": [r0, r1], "dec_range": [d0, d1], "rng": rng}, {"system": "xyz"},
@@ -1125,10 +1187,33 @@ class Mini:
             return None
         return self.repo.resolve_name(fi.module, d)
 
+    def referenced(self, v, fi):
+        """the package function a value refers to, when it is one that calls are followed into (see followed); else None"""
+        if not isinstance(v, sp.Symbol):
+            return None
+        d = str(v)
+        if d.startswith("self.") and d.count(".") == 1 and fi.cls:
+            q = "%s.%s.%s" % (fi.module.name, fi.cls, d[5:])
+            return self.repo.func(q) if self.repo.has(q) and d not in self.state else None
+        if self.repo.has(d):
+            tgt = self.repo.func(d)
+            leaf = d.rsplit(".", 1)[1]
+            if tgt.cls is None and leaf.startswith("_") and not leaf.startswith("__"):
+                return tgt
+        return None
+
     def followed(self, c, env, fi):
         """the package function a call is followed into: methods of the same object and private helpers; else None"""
         d = dotted_name(c.func)
-        if not d:
+        if not d or (isinstance(c.func, ast.Name) and c.func.id in env):
+            # the callee is a value (picked from a dispatch table, returned by a call, held in a local): followed when the value
+            # is a reference to a method of the same object or to a private helper, exactly as the direct call would be
+            if isinstance(c.func, (ast.Name, ast.Subscript, ast.Call, ast.IfExp)):
+                try:
+                    v = self.ev(c.func, env, fi)
+                except (NoVerdict, _Raised):
+                    return None
+                return self.referenced(v, fi)
             return None
         if d.startswith("self.") and d.count(".") == 1 and fi.cls:
             q = "%s.%s.%s" % (fi.module.name, fi.cls, d[5:])
@@ -1211,6 +1296,21 @@ class Mini:
             return tuple(self.ev(x, env, fi) for x in e.elts)
         if isinstance(e, ast.List):
             return sp.Tuple(*[term(self.ev(x, env, fi)) for x in e.elts])
+        if isinstance(e, ast.Dict):
+            # a table with literal keys (a dispatch table of bound methods / functions, a table of constants); an entry the
+            # evaluator does not model only matters when it is the one selected
+            out = {}
+            for k, v in zip(e.keys, e.values):
+                if k is None:
+                    raise NoVerdict("dict unpacking at %s" % fi.where(e))
+                kv = self.ev(k, env, fi)
+                if not (isinstance(kv, (str, bool)) or kv is None or (isinstance(kv, sp.Basic) and kv.is_number)):
+                    raise NoVerdict("dict key `%s` at %s is not a literal" % (norm(k), fi.where(e)))
+                try:
+                    out[kv] = self.ev(v, env, fi)
+                except NoVerdict as ex:
+                    out[kv] = ex
+            return out
         if isinstance(e, ast.Subscript):
             return self.subscript(self.ev(e.value, env, fi), e.slice, env, fi, e)
         if isinstance(e, ast.Call):
@@ -1218,6 +1318,19 @@ class Mini:
         if isinstance(e, ast.JoinedStr):
             return UNK
         raise NoVerdict("expression %s at %s" % (type(e).__name__, fi.where(e)))
+
+    def lookup(self, table, key, default, e, fi):
+        """table[key] / table.get(key, default) of a literal-keyed table; default is a thunk or None (plain subscript: KeyError)"""
+        if not (isinstance(key, (str, bool)) or key is None or (isinstance(key, sp.Basic) and key.is_number)):
+            raise NoVerdict("key of the table lookup `%s` at %s is not decided by the flags" % (norm(e)[:60], fi.where(e)))
+        if key in table:
+            v = table[key]
+            if isinstance(v, NoVerdict):
+                raise v
+            return v
+        if default is None:
+            raise _Raised()
+        return default()
 
     def index_item(self, s, env, fi):
         if isinstance(s, ast.Slice):
@@ -1234,6 +1347,10 @@ class Mini:
             items = [self.index_item(sl, env, fi)]
         if isinstance(base, tuple) and len(items) == 1 and isinstance(items[0], sp.Integer) and -len(base) <= int(items[0]) < len(base):
             return base[int(items[0])]
+        if isinstance(base, dict):
+            if isinstance(sl, (ast.Tuple, ast.Slice)):
+                raise NoVerdict("subscript `%s` at %s" % (norm(e), fi.where(e)))
+            return self.lookup(base, self.ev(sl, env, fi), None, e, fi)
         b = term(base)
         while len(items) > 1 and items[-1] == ":":
             items.pop()
@@ -1269,6 +1386,9 @@ class Mini:
         if any(a is UNK for a in args):
             return UNK
         full = self.resolve(f, env, fi)
+        if full is not None and isinstance(f, ast.Attribute) and isinstance(f.value, ast.Name) and f.value.id in fi.module.consts \
+                and isinstance(fi.module.consts[f.value.id], ast.Dict):
+            full = None         # a method of a module-level table (TABLE.get(key, default)): handled with the receiver's value below
         if full is None and isinstance(f, ast.Name) and f.id not in env:
             full = f.id
         if full is not None:
@@ -1316,6 +1436,10 @@ class Mini:
             recv = self.ev(f.value, env, fi)
             if recv is UNK:
                 return UNK
+            if isinstance(recv, dict):
+                if f.attr == "get" and 1 <= len(args) <= 2 and not c.keywords:
+                    return self.lookup(recv, args[0], (lambda: args[1]) if len(args) == 2 else (lambda: None), c, fi)
+                raise NoVerdict("method `%s` of a table at %s" % (f.attr, fi.where(c)))
             r = term(recv)
             if f.attr in IDENT_METHODS:
                 return r
